@@ -139,9 +139,15 @@ pub struct PushRequestBuilder {
 /// Stand-in for `reqwest::Response`.
 pub struct PushResponse {
     status: u16,
+    body_broken: bool,
 }
 
+/// What the simulated endpoint adds to a status code to say "this status line arrives, the
+/// response body behind it breaks off" (connection closed before the announced length).
+pub const PUSH_BODY_BROKEN: u16 = 10_000;
+
 /// Stand-in for `reqwest::StatusCode`.
+#[derive(Clone, Copy, PartialEq, Eq, Debug)]
 pub struct PushStatus(u16);
 
 impl PushClient {
@@ -179,7 +185,10 @@ impl PushRequestBuilder {
             Some(hooks) => hooks
                 .push_send(self.request)
                 .await
-                .map(|status| PushResponse { status }),
+                .map(|status| PushResponse {
+                    status: status % PUSH_BODY_BROKEN,
+                    body_broken: status >= PUSH_BODY_BROKEN,
+                }),
             None => Err("no simulated push endpoint installed".to_string()),
         }
     }
@@ -188,6 +197,21 @@ impl PushRequestBuilder {
 impl PushResponse {
     pub fn status(&self) -> PushStatus {
         PushStatus(self.status)
+    }
+
+    /// Stand-in for `reqwest::Response::bytes`: fails when the simulated endpoint broke the body.
+    pub async fn bytes(self) -> Result<Vec<u8>, String> {
+        probe("push_body_read");
+        if self.body_broken {
+            Err("error decoding response body: connection closed before message completed".into())
+        } else {
+            Ok(Vec::new())
+        }
+    }
+
+    /// Stand-in for `reqwest::Response::text`.
+    pub async fn text(self) -> Result<String, String> {
+        self.bytes().await.map(|_| String::new())
     }
 }
 
